@@ -12,6 +12,26 @@ CHECKS = {
    "Every token sequence up to the length bound over a one-spelling-per-kind alphabet (quick 4, thorough 6 tokens; 3 whitespace styles), every single-token edit of every generated sentence up to the size bound, and sequences over structured spellings are classified by an independent chart recogniser of the JMESPath ABNF and replayed against Compile; accepted sentences are also searched to show they are usable. Exhaustive inside the bound, so any accept/reject deviation expressible in that many tokens is found.",
    "Trusted: the ABNF transcription in model/grammar.go (grounded on the 862 official compliance cases and cross-checked against the independent precedence parser P and the sentence generator on all sequences up to 5 kinds). Gaps G1-G4 give no verdict.",
    "DESIGN.md section 5 C04"),
+ "C01": ("M", "model_checking",
+   "bounded exhaustive (expression x document) enumeration, reference evaluator vs Search",
+   "All sentences of the core fragment up to the structural weight bound (quick 5, thorough 6) x all documents of V(d,2,A6,keys) (quick depth 1: 430 docs, thorough depth 2: 19k docs) are evaluated by the independent reference evaluator and replayed against the real compiled Search; results compared by deep JSON equality, error iff error. Every Execute case of the fragment meets every JSON type as current value.",
+   "Trusted: model/eval.go (grounded on the official compliance corpus). Claim is bounded: no violation by any expression/document inside the stated bounds.",
+   "DESIGN.md section 5 C01"),
+ "C02": ("M", "model_checking",
+   "bounded exhaustive (expression x document) enumeration with outcome sets over object-member orders",
+   "All sentences of the projection fragment containing a projection (every projection kind, chained/nested, RHS that map null to non-null, all terminators) up to the weight bound x ~1.2k-10k documents incl. heterogeneous / null-containing arrays and objects; the real result must be a member of the set of outcomes the reference evaluator admits over all object-member orders.",
+   "Trusted: model/eval.go. Bounded as reported in the evidence.",
+   "DESIGN.md section 5 C02"),
+ "C07": ("M", "model_checking",
+   "exhaustive operand-pair and operator-nesting enumeration against a reference truth table",
+   "All pairs of 84 operand values (every type, emptiness, nesting) x 8 binary operators as fields and as literals, !x/!!x, all nestings of ||,&&,!,comparators up to 5 (thorough 7) tokens over all triples of 12 operand values, the same conditions inside filters, and short-circuit probes with an erroring unevaluated side; compared with the reference evaluator.",
+   "Trusted: model/eval.go truthiness / deep equality / numeric ordering.",
+   "DESIGN.md section 5 C07"),
+ "C08": ("M", "model_checking",
+   "exhaustive (length,start,stop,step) window enumeration against CPython slice arithmetic",
+   "Array lengths 0..4 (thorough 0..7) x all (start,stop,step) in ({absent} U [-L-3,L+3])^3 plus +-2^31/+-2^63 boundary crossings, via [a:b:c], x[a:b:c], a typed []string twin, non-array subjects and 20-digit numerals; compared with a transcription of PySlice_AdjustIndices; panics are violations.",
+   "Trusted: model.SliceIndices. Magnitudes beyond the window are represented by the boundary set only.",
+   "DESIGN.md section 5 C08"),
 }
 
 NOT_YET = {}
